@@ -11,6 +11,7 @@ import (
 
 	gqlparser "github.com/vektah/gqlparser/v2"
 	"github.com/vektah/gqlparser/v2/ast"
+	"github.com/vektah/gqlparser/v2/formatter"
 	"github.com/vektah/gqlparser/v2/parser"
 	"github.com/vektah/gqlparser/v2/validator"
 	"github.com/vektah/gqlparser/v2/validator/rules"
@@ -41,7 +42,7 @@ func init() {
 		Check:           c11Check,
 		DistinctClasses: []string{"completion-order", "op-kind"},
 		MinEvaluations:  func(tier string) int64 { return 20 },
-		RequiredCounts:  []string{"concurrent_ops", "rounds", "snapshots_compared", "yield_rounds", "op:validate", "op:validate-rules", "op:variables", "op:argmap", "op:format", "op:lookups"},
+		RequiredCounts:  []string{"concurrent_ops", "cold_rounds", "op:schema-argmaps", "op:format-builtin", "rounds", "snapshots_compared", "yield_rounds", "op:validate", "op:validate-rules", "op:variables", "op:argmap", "op:format", "op:lookups"},
 		Race:            true,
 		ShardTimeoutS:   1200,
 	})
@@ -63,7 +64,7 @@ func c11Run(x *core.Ctx) {
 	r := x.Rand(uint64(x.Shard))
 	gs := []int{2, 4, 8, 16, 32}
 	for i := 0; i < rounds; i++ {
-		c := core.NewCase("round", "seed", fmt.Sprint(r.Uint64()%1000000007), "g", strconv.Itoa(gs[(i+x.Shard)%len(gs)]), "ops", strconv.Itoa(opsPer), "yield", strconv.Itoa([]int{0, 2000, 20000}[i%3]))
+		c := core.NewCase("round", "seed", fmt.Sprint(r.Uint64()%1000000007), "g", strconv.Itoa(gs[(i+x.Shard)%len(gs)]), "ops", strconv.Itoa(opsPer), "yield", strconv.Itoa([]int{0, 2000, 20000}[i%3]), "cold", strconv.Itoa([]int{1, 0, 0, 1, 0}[i%5]))
 		x.Do(c, func() { c11Check(x, c) })
 	}
 }
@@ -310,6 +311,8 @@ func c11Exec(schema *ast.Schema, op *c11Op) (res string) {
 		return b.String()
 	case "format":
 		return fmtSchema(schema, nil)
+	case "format-builtin":
+		return fmtSchema(schema, []formatter.FormatterOption{formatter.WithBuiltin(), formatter.WithComments()})
 	case "schema-argmaps":
 		// the arguments of the directives applied IN the schema (servers read @deprecated reasons, auth roles, ... this way)
 		var b strings.Builder
@@ -420,13 +423,16 @@ func c11BuildOps(r *core.Rand, mg *tsys.Merged, n int) []*c11Op {
 			op.kind = "argmap"
 		case k < 11:
 			op.kind = "format"
-			if r.Bool() {
+			switch r.Intn(3) {
+			case 0:
 				op.kind = "schema-argmaps"
+			case 1:
+				op.kind = "format-builtin"
 			}
 		default:
 			op.kind = "lookups"
 		}
-		if op.kind == "format" || op.kind == "lookups" || op.kind == "schema-argmaps" {
+		if op.kind == "format" || op.kind == "format-builtin" || op.kind == "lookups" || op.kind == "schema-argmaps" {
 			ops = append(ops, op)
 			continue
 		}
@@ -437,7 +443,12 @@ func c11BuildOps(r *core.Rand, mg *tsys.Merged, n int) []*c11Op {
 		}
 		if strings.HasPrefix(op.kind, "validate") && r.Chance(2, 3) {
 			for k := 0; k < 1+r.Intn(3); k++ {
-				dgen.Faults[r.Intn(len(dgen.Faults))].Do(dgen.NewFCtx(r, mg, doc))
+				f := dgen.Faults[r.Intn(len(dgen.Faults))]
+				if r.Chance(1, 2) {
+					// misspelt names: the 'did you mean' machinery (distances, sorting, candidate lists) runs concurrently
+					f = c10NearMiss()[r.Intn(len(c10NearMiss()))]
+				}
+				f.Do(dgen.NewFCtx(r, mg, doc))
 			}
 		}
 		if op.kind == "variables" || op.kind == "argmap" {
@@ -458,6 +469,17 @@ func c11BuildOps(r *core.Rand, mg *tsys.Merged, n int) []*c11Op {
 					}
 				}
 			}
+		}
+		if (op.kind == "variables" || op.kind == "argmap") && len(op.vars) > 0 && r.Chance(1, 3) {
+			// one supplied value is replaced by something no input type accepts at some depth: coercion answers with an error
+			// that carries a path, which the caller reads while other goroutines coerce their own variables
+			var keys []string
+			for k := range op.vars {
+				keys = append(keys, k)
+			}
+			sort.Strings(keys)
+			k := keys[r.Intn(len(keys))]
+			op.vars[k] = []interface{}{map[string]interface{}{"noSuchField": []interface{}{1, map[string]interface{}{"deeper": true}}}, op.vars[k]}
 		}
 		op.doc = rn.RenderDoc(doc)
 		ops = append(ops, op)
@@ -488,22 +510,32 @@ func c11Check(x *core.Ctx, c *core.Case) {
 		all[g] = c11BuildOps(r.Fork(uint64(g)), mg, nops)
 	}
 	before := snapshotSchema(schema)
-	// sequential baselines
+	// sequential baselines: before the concurrent phase, or - in a COLD round - after it, so that the goroutines meet a
+	// schema (and a process) in which nothing has run yet and every lazily built structure is built under contention
+	cold := c.Get("cold") == "1"
 	base := make([][]string, G)
-	for g := range all {
-		base[g] = make([]string, len(all[g]))
-		for i, op := range all[g] {
-			base[g][i] = c11Exec(schema, op)
-			x.Count("op:" + op.kind)
-			x.Distinct("op-kind", op.kind)
+	sequential := func() bool {
+		for g := range all {
+			base[g] = make([]string, len(all[g]))
+			for i, op := range all[g] {
+				base[g][i] = c11Exec(schema, op)
+				x.Count("op:" + op.kind)
+				x.Distinct("op-kind", op.kind)
+			}
 		}
+		if mid := snapshotSchema(schema); mid != before {
+			a, b := firstDifference(before, mid)
+			x.Violate("snapshot:sequential:"+snapshotPathKind(before, mid), "after the sequential history: ..."+b, "before: ..."+a)
+			return false
+		}
+		x.Count("snapshots_compared")
+		return true
 	}
-	if mid := snapshotSchema(schema); mid != before {
-		a, b := firstDifference(before, mid)
-		x.Violate("snapshot:sequential:"+snapshotPathKind(before, mid), "after the sequential history: ..."+b, "before: ..."+a)
+	if cold {
+		x.Count("cold_rounds")
+	} else if !sequential() {
 		return
 	}
-	x.Count("snapshots_compared")
 	// concurrent phase
 	got := make([][]string, G)
 	order := make([]int32, G)
@@ -536,12 +568,22 @@ func c11Check(x *core.Ctx, c *core.Case) {
 		sig = append(sig, fmt.Sprint(order[g]))
 	}
 	x.Distinct("completion-order", fmt.Sprintf("G%d:%s", G, strings.Join(sig, ".")))
+	if cold {
+		if mid := snapshotSchema(schema); mid != before {
+			a, b := firstDifference(before, mid)
+			x.Violate("snapshot:concurrent:"+snapshotPathKind(before, mid), "after the (cold) round: ..."+b, "before: ..."+a)
+			return
+		}
+		if !sequential() {
+			return
+		}
+	}
 	for g := range all {
 		for i := range all[g] {
 			x.Count("concurrent_ops")
 			x.Nontrivial()
 			if got[g][i] != base[g][i] {
-				x.Violate("result-drift:concurrent:"+all[g][i].kind, clipStr(got[g][i], 1500), "alone before the round: "+clipStr(base[g][i], 1500))
+				x.Violate("result-drift:concurrent:"+all[g][i].kind, clipStr(got[g][i], 1500), "alone: "+clipStr(base[g][i], 1500))
 				return
 			}
 		}
